@@ -809,6 +809,7 @@ func (ps *PathSum) exec(s *psState, f *psFrame) []*psOutcome {
 			f.vals[x] = ps.val(f, x.X)
 		case *ssa.Range:
 			f.vals[x] = "range(" + ps.val(f, x.X) + ")"
+			delete(s.cells, fmt.Sprintf("&iterated:%d:%s", f.id, x.Name()))
 		case *ssa.Next:
 			t := ps.sym("next")
 			okTerm := "ok:" + t
@@ -818,9 +819,18 @@ func (ps *PathSum) exec(s *psState, f *psFrame) []*psOutcome {
 				if m == "nil" || (strings.HasPrefix(m, "map") && s.cells["&len:"+m] == "") {
 					okTerm = "false" // ranging over a nil / still empty map
 				}
+				// a map written on this path is not empty: its range yields at least one element
+				itKey := fmt.Sprintf("&iterated:%d:%s", f.id, x.Iter.Name())
+				if strings.HasPrefix(m, "map") && s.cells["&len:"+m] == "pos" && s.cells[itKey] == "" {
+					okTerm = "true"
+				}
+				s.cells[itKey] = "1"
 			}
 			if ps.trackRanges && strings.HasPrefix(it, "range(") {
 				ps.emit(s, f, x.Pos(), "RangeNext", it[6:len(it)-1], t, okTerm)
+			}
+			if strings.HasPrefix(it, "range(") {
+				s.cells["&rangeof:"+t] = it[6 : len(it)-1]
 			}
 			s.cells["&"+t+".0"] = okTerm
 			s.cells["&"+t+".1"] = t + ".k"
@@ -932,6 +942,8 @@ func (ps *PathSum) binop(f *psFrame, x *ssa.BinOp) string {
 			t = "true"
 		case isConstTerm(a) && isConstTerm(b):
 			t = "false"
+		case (strings.HasPrefix(a, "lenpos(") && b == "const(0)") || (strings.HasPrefix(b, "lenpos(") && a == "const(0)"):
+			t = "false" // the length of a container written on this path is not zero, however the test is spelled
 		case strings.HasPrefix(a, "fresh") || strings.HasPrefix(b, "fresh"):
 			// a node created on this path is distinct from every other node
 			t = "false"
@@ -985,6 +997,22 @@ func (ps *PathSum) binop(f *psFrame, x *ssa.BinOp) string {
 			return "false"
 		}
 	}
+	if strings.HasPrefix(a, "lenpos(") && b == "const(1)" {
+		switch x.Op {
+		case token.GEQ:
+			return "true"
+		case token.LSS:
+			return "false"
+		}
+	}
+	if strings.HasPrefix(b, "lenpos(") && a == "const(0)" {
+		switch x.Op {
+		case token.LSS:
+			return "true"
+		case token.GEQ:
+			return "false"
+		}
+	}
 	return "(" + a + x.Op.String() + b + ")"
 }
 
@@ -1027,6 +1055,24 @@ func (ps *PathSum) branch(s *psState, f *psFrame, x *ssa.If) []*psOutcome {
 			return []*psOutcome{{S: s, Cut: true}}
 		}
 		return ps.exec(s, f)
+	}
+	if strings.HasPrefix(atom, "Eq(") {
+		// x == c is false once x == c' is known (whatever order two switches over x test their cases in)
+		inner := atom[3 : len(atom)-1]
+		if i := strings.LastIndex(inner, ",const("); i >= 0 {
+			for a, was := range s.preds {
+				if was && a != atom && strings.HasPrefix(a, "Eq("+inner[:i]+",const(") {
+					j := 0
+					if !neg {
+						j = 1
+					}
+					if !ps.enter(f, f.block.Succs[j]) {
+						return []*psOutcome{{S: s, Cut: true}}
+					}
+					return ps.exec(s, f)
+				}
+			}
+		}
 	}
 	if v, ok := signDecide(s.preds, atom); ok {
 		i := 1
@@ -1138,8 +1184,11 @@ func (ps *PathSum) implied(s *psState, atom string, v bool) {
 		inner := atom[3 : len(atom)-1]
 		if i := strings.LastIndex(inner, ",const("); i >= 0 {
 			x := inner[:i]
-			for a := range s.preds {
+			for a, was := range s.preds {
 				if a != atom && strings.HasPrefix(a, "Eq("+x+",const(") {
+					if was {
+						s.dead = true // x is already known to equal another constant: the path is infeasible
+					}
 					s.preds[a] = false
 				}
 			}
